@@ -210,6 +210,7 @@ int main(int argc, char** argv)
     catch (...)
     {
         printf("UNCAUGHT-EXCEPTION\n");
+        printf("CONFIRMED-VIOLATION harness body ended by an uncaught exception\n");
     }
     fflush(stdout);
     return 0;
